@@ -106,6 +106,24 @@ func (st LString) Format(f fmt.State, c rune) {
 		} else {
 			defaultFormat(string(st), f, 's')
 		}
+	case 'q':
+		// a literal which the Lua reader turns back into the same string (addquoted in lstrlib.c), not Go's %q
+		buf := make([]byte, 0, len(st)+2)
+		buf = append(buf, '"')
+		for i := 0; i < len(st); i++ {
+			switch b := st[i]; b {
+			case '"', '\\', '\n':
+				buf = append(buf, '\\', b)
+			case '\r':
+				buf = append(buf, "\\r"...)
+			case 0:
+				buf = append(buf, "\\000"...)
+			default:
+				buf = append(buf, b)
+			}
+		}
+		buf = append(buf, '"')
+		f.Write(buf)
 	default:
 		defaultFormat(string(st), f, c)
 	}
